@@ -847,6 +847,11 @@ fn tts(c: &mut Case) {
     }
 }
 
+/// parameter builders keep every configured value whatever the order of the `with_*` steps
+fn builders_fam(c: &mut Case) {
+    scverif::builders::case(c, "C16")
+}
+
 fn main() {
     runner::main(Spec {
         property: "C16",
@@ -859,6 +864,7 @@ fn main() {
             "the expected test count is evaluated by the harness as the IEEE single-precision product (exact f64 product rounded to f32), truncated",
         ],
         families: vec![
+            Family::new("builders", 300, 3000, builders_fam),
             Family::new("kfold_grid", GRID, GRID, kfold_grid).exhaustive(true, true),
             Family::new("kfold_shuffle", GRID, 10 * GRID, kfold_shuffle),
             Family::new("kfold_large", 400, 4000, kfold_large),
